@@ -394,6 +394,7 @@ func genStream(t *rapid.T, cfg streamCfg) []*srcPkt {
 					sp.VP8N = tid == uint8(cfg.maxTid) && cfg.maxTid > 0
 					if i > 0 {
 						sp.VP8PartID = uint8(i % 8)
+						sp.VP8PartStart = i%3 == 1 // some packets begin a later partition (S=1, PartID != 0)
 					}
 				case "video/VP9":
 					sp.VP9L = cfg.maxTid > 0 || cfg.maxSid > 0
